@@ -34,8 +34,9 @@ Bad == [k |-> "bad"]
 SourcePool == {Obj(<<"a">>, <<IntV(1)>>), Obj(<<"a", "b">>, <<IntV(2), IntV(3)>>), Obj(<<"b">>, <<StrV("s")>>), Obj(<<>>, <<>>),
                Obj(<<"a">>, <<NullV>>),                  \* a later null overrides an earlier value like any other value
                Obj(<<"value_1">>, <<StrV("n")>>),        \* an object key spelled like the name an unnamed value gets: later sources still win, by order of appearance
+               Obj(<<"__blots_function">>, <<StrV("sum")>>),   \* at the top level an object is a set of named inputs whatever its keys are called
                Val(IntV(7)), Val(StrV("t")), Val(ListV(<<IntV(1)>>)), Val(NullV), Bad}
-InputNames == {"a", "b", "value_1", "value_2", "value_3", "zz"}
+InputNames == {"a", "b", "value_1", "value_2", "value_3", "zz", "__blots_function"}
 
 \* ------------------------------------------------------------------ statements
 \* kinds: outin(n, key): output n = inputs.key     outref(n, key): output n = #key
@@ -49,7 +50,7 @@ S(k, n, x) == [k |-> k, n |-> n, x |-> x]
 StmtPool == {S("outin", "x", "a"), S("outin", "y", "b"), S("outref", "z", "b"), S("outin", "v", "value_1"), S("outref", "u", "value_2"),
              S("bind", "y", 5), S("bind", "x", 6), S("out", "y", 0), S("out", "x", 0), S("outlit", "x", 1), S("outlit", "w", 2),
              S("evalerr", "", 0), S("parseerr", "", 0), S("nonportable", "f", 0), S("refs", "r", 0), S("plain", "", 0),
-             S("refsdo", "r", 0), S("refsfn", "v", 0)}
+             S("refsdo", "r", 0), S("refsfn", "v", 0), S("outin", "w", "__blots_function")}
 OutNames == {"x", "y", "z", "v", "u", "w", "f", "r"}
 Modes == {"inline", "file", "evaluate", "outfile"}
 
